@@ -11,9 +11,12 @@ package main
 // (Harness/C01.v), with model restarts at the heights the case names.
 
 import (
+	"bytes"
 	"crypto/sha256"
+	"encoding/binary"
 	"encoding/hex"
 	"encoding/json"
+	"errors"
 	"fmt"
 	"path/filepath"
 	"reflect"
@@ -53,6 +56,8 @@ import (
 	"github.com/nspcc-dev/neo-go/pkg/interop/contract"
 	"github.com/nspcc-dev/neo-go/pkg/interop/iterator"
 	"github.com/nspcc-dev/neo-go/pkg/interop/native/management"
+	"github.com/nspcc-dev/neo-go/pkg/interop/native/neo"
+	"github.com/nspcc-dev/neo-go/pkg/interop/native/std"
 	"github.com/nspcc-dev/neo-go/pkg/interop/runtime"
 	"github.com/nspcc-dev/neo-go/pkg/interop/storage"
 )
@@ -89,6 +94,72 @@ func Sweep(seed int) int {
 func FillFail(seed, n int) {
 	Fill(seed, n)
 	panic("fill refused")
+}
+// FillS: like Fill with serialised arrays as values (for DeserializeValues / PickField)
+func FillS(seed, n int) {
+	ctx := storage.GetContext()
+	for i := 0; i < n; i++ {
+		k := []byte{byte(seed), byte(i), byte(i / 256)}
+		storage.Put(ctx, k, std.Serialize([]any{i, append(k, byte(VERSION)), "item"}))
+	}
+}
+// collect keeps EVERY value the iterator hands out while it advances, and returns them only after it is exhausted
+func collect(prefix []byte, opts int) []any {
+	it := storage.Find(storage.GetContext(), prefix, storage.FindFlags(opts))
+	res := []any{}
+	for iterator.Next(it) {
+		res = append(res, iterator.Value(it))
+	}
+	return res
+}
+func Peek(seed, opts int) []any { return collect([]byte{byte(seed)}, opts) }
+func Keep(seed, opts int) []any {
+	r := collect([]byte{byte(seed)}, opts)
+	storage.Put(storage.GetContext(), []byte{0xEE, byte(seed), byte(opts)}, std.Serialize(r))
+	return r
+}
+// KeepTwice: the same read twice in one execution, another iteration in between
+func KeepTwice(seed, other, opts int) []any {
+	a := collect([]byte{byte(seed)}, opts)
+	c := collect([]byte{byte(other)}, 1)
+	b := collect([]byte{byte(seed)}, opts)
+	r := []any{a, c, b}
+	storage.Put(storage.GetContext(), []byte{0xEF, byte(seed), byte(opts)}, std.Serialize(r))
+	return r
+}
+// Natives: the iterators of NEO.getAllCandidates and Management.getContractHashes, values kept across Next
+func Natives() []any {
+	it := neo.GetAllCandidates()
+	cs := []any{}
+	for iterator.Next(it) {
+		cs = append(cs, iterator.Value(it))
+	}
+	ih := management.GetContractHashes()
+	hs := []any{}
+	for iterator.Next(ih) {
+		hs = append(hs, iterator.Value(ih))
+	}
+	it2 := neo.GetAllCandidates()
+	cs2 := []any{}
+	for iterator.Next(it2) {
+		cs2 = append(cs2, iterator.Value(it2))
+	}
+	r := []any{cs, hs, cs2}
+	storage.Put(storage.GetContext(), []byte{0xED}, std.Serialize(r))
+	return r
+}
+func PeekNatives() []any {
+	it := neo.GetAllCandidates()
+	cs := []any{}
+	for iterator.Next(it) {
+		cs = append(cs, iterator.Value(it))
+	}
+	ih := management.GetContractHashes()
+	hs := []any{}
+	for iterator.Next(ih) {
+		hs = append(hs, iterator.Value(ih))
+	}
+	return []any{cs, hs}
 }
 func Take(x any) int { return VERSION }
 func Relay(h interop.Hash160, x any) int { return contract.Call(h, "take", contract.ReadOnly, x).(int) }
@@ -222,6 +293,25 @@ func (c *c05Chain) c01BuildTx(op c05Op) (*transaction.Transaction, error) {
 			return nil, err
 		}
 		return c.mkTx(h, "sweep", []any{int64(op.N)}, 30_0000_0000, nil, op.F)
+	case "cfills": // serialised values under prefix N (4 or 5)
+		h, _, err := target()
+		if err != nil {
+			return nil, err
+		}
+		return c.mkTx(h, "fillS", []any{int64(op.N), op.A}, 30_0000_0000, nil, op.F)
+	case "citer": // iterator values held across Next: K = Find options, N = prefix; A = 0 keep, 1 keepTwice (other prefix W), 2 natives
+		h, _, err := target()
+		if err != nil {
+			return nil, err
+		}
+		switch op.A {
+		case 0:
+			return c.mkTx(h, "keep", []any{int64(op.N), int64(op.K)}, 30_0000_0000, nil, op.F)
+		case 1:
+			return c.mkTx(h, "keepTwice", []any{int64(op.N), int64(op.W), int64(op.K)}, 30_0000_0000, nil, op.F)
+		default:
+			return c.mkTx(h, "natives", []any{}, 30_0000_0000, nil, op.F)
+		}
 	case "role":
 		role, kids := c01RoleArgs(u, op)
 		var ks []any
@@ -436,6 +526,7 @@ type c01Obs struct {
 	Whitelist  []int64           `json:"-"`           // (contract account, fee) pairs of the cached whitelist, for the model
 	QContracts string            `json:"q_contracts"` // Management.getContract of the storage contract of every signing account
 	QRoles     string            `json:"q_roles"`     // RoleManagement.getDesignatedByRole of every role at the tip and at historic heights
+	QIter      string            `json:"q_iter"`      // peek(prefix, options) of the storage contracts: Find iterators whose values are kept across Next
 	RoleQ      []c01RoleQ        `json:"-"`
 	ContractQ  []c01ContractQ    `json:"-"` // Management.getContract of the storage contract of every account
 	Enroll     string            `json:"enrollments"`
@@ -544,6 +635,7 @@ func c01Observe(bc *core.Blockchain, u *c05Universe, b *block.Block) *c01Obs {
 	o.Policy = []int64{bc.FeePerByte(), bc.GetBaseExecFee(), bc.GetStoragePrice(), int64(bc.GetMaxTraceableBlocks()),
 		int64(bc.GetMaxValidUntilBlockIncrement()), int64(bc.GetMillisecondsPerBlock())}
 	c01Queries(bc, u, o, bad)
+	c01IterQueries(bc, u, o, bad)
 	if en, err := bc.GetEnrollments(); err != nil {
 		bad("GetEnrollments: %v", err)
 	} else {
@@ -763,6 +855,202 @@ func c01Queries(bc *core.Blockchain, u *c05Universe, o *c01Obs, bad func(string,
 	o.QWhitelist = c01Hash(wl)
 	o.QRoles = c01Hash(parts[gRoles]...)
 	o.QContracts = c01Hash(parts[gContracts]...)
+}
+
+// c01FindOpts: every legal combination class of System.Storage.Find options the histories and the direct check use
+// (1 KeysOnly, 2 RemovePrefix, 4 ValuesOnly, 8 DeserializeValues, 16 PickField0, 32 PickField1, 128 Backwards);
+// the second list needs serialised values (prefixes 4 and 5, written by fillS).
+var c01FindOpts = []int{0, 1, 2, 3, 4, 128, 129, 130, 131, 132}
+var c01FindOptsDeser = []int{8, 10, 12, 24, 28, 40, 44, 136, 140, 156, 172}
+
+// c01IterExpected: what an iterator made by Find(prefix, opts) must hand out, computed from a plain Seek dump
+// (pairs of full key and value, ascending) the way interop/storage.Iterator.Value does.
+func c01IterExpected(pairs [][2][]byte, opts int) (res [][]byte, err error) {
+	if opts&128 != 0 {
+		rev := make([][2][]byte, len(pairs))
+		for i := range pairs {
+			rev[len(pairs)-1-i] = pairs[i]
+		}
+		pairs = rev
+	}
+	for _, kv := range pairs {
+		key := kv[0]
+		if opts&2 != 0 {
+			key = key[1:]
+		}
+		var it stackitem.Item
+		if opts&1 != 0 {
+			it = stackitem.NewByteArray(key)
+		} else {
+			value := stackitem.Item(stackitem.NewByteArray(kv[1]))
+			if opts&8 != 0 {
+				if value, err = stackitem.Deserialize(kv[1]); err != nil {
+					return nil, err
+				}
+			}
+			if opts&(16|32) != 0 {
+				f, ok := value.Value().([]stackitem.Item)
+				if !ok || len(f) < 2 {
+					return nil, errors.New("not an array")
+				}
+				if opts&16 != 0 {
+					value = f[0]
+				} else {
+					value = f[1]
+				}
+			}
+			if opts&4 != 0 {
+				it = value
+			} else {
+				it = stackitem.NewStruct([]stackitem.Item{stackitem.NewByteArray(key), value})
+			}
+		}
+		b, e := stackitem.Serialize(it)
+		if e != nil {
+			return nil, e
+		}
+		res = append(res, b)
+	}
+	return res, nil
+}
+
+// c01IterQueries: the direct check of the iterator contract on THIS node.  Read-only invocations of peek(prefix, opts)
+// of up to four deployed storage contracts -- the method keeps every value the iterator hands out until the iterator is
+// exhausted -- must return exactly what a plain SeekStorage dump of the same prefix says (a different number of
+// items, an item that changed after the iterator advanced, a wrong order are reported through bad); the answers also
+// go into the digest q_iter, compared between the replicas like every other answer.  The option combinations rotate
+// with the height so that every node asks the same questions at the same height.
+func c01IterQueries(bc *core.Blockchain, u *c05Universe, o *c01Obs, bad func(string, ...any)) {
+	contracts := map[int]util.Uint160{}
+	u.mu.Lock()
+	for h, i := range u.idx {
+		if i > 100 && i <= 114 {
+			contracts[i-100] = h
+		}
+	}
+	u.mu.Unlock()
+	var present []c01ContractQ
+	for _, cq := range o.ContractQ {
+		if cq.A == 13 || cq.A == 14 {
+			present = append(present, cq)
+		}
+	}
+	for _, cq := range o.ContractQ {
+		if cq.A != 13 && cq.A != 14 && len(present) < 4 {
+			present = append(present, cq)
+		}
+	}
+	if len(present) == 0 {
+		o.QIter = c01Hash()
+		return
+	}
+	type q struct {
+		cq         c01ContractQ
+		seed, opts int
+		natives    bool
+	}
+	var qs []q
+	w := io.NewBufBinWriter()
+	h := int(bc.BlockHeight())
+	for _, cq := range present {
+		for seed := 0; seed < 6; seed++ {
+			list := c01FindOpts
+			if seed >= 4 {
+				list = append(append([]int{}, c01FindOpts...), c01FindOptsDeser...)
+			}
+			for j := 0; j < 3; j++ {
+				opts := list[(h*3+seed*5+cq.A+j*7)%len(list)]
+				emit.AppCall(w.BinWriter, contracts[cq.A], "peek", callflag.ReadOnly, int64(seed), int64(opts))
+				qs = append(qs, q{cq: cq, seed: seed, opts: opts})
+			}
+		}
+	}
+	emit.AppCall(w.BinWriter, contracts[present[0].A], "peekNatives", callflag.ReadOnly)
+	qs = append(qs, q{cq: present[0], natives: true})
+	ic, err := bc.GetTestVM(trigger.Application, nil, nil)
+	if err != nil {
+		bad("GetTestVM: %v", err)
+		return
+	}
+	defer ic.Finalize()
+	ic.VM.LoadScriptWithFlags(w.Bytes(), callflag.ReadOnly)
+	ic.VM.SetGasLimit(1000_0000_0000)
+	if err := ic.VM.Run(); err != nil {
+		bad("iterator queries faulted: %v", err)
+		return
+	}
+	items := ic.VM.Estack().ToArray()
+	if len(items) != len(qs) {
+		bad("iterator queries: %d answers for %d calls", len(items), len(qs))
+		return
+	}
+	var parts [][]byte
+	dumps := map[[2]int][][2][]byte{}
+	for i, it := range items {
+		arr, ok := it.Value().([]stackitem.Item)
+		if !ok {
+			bad("iterator query %d: not an array", i)
+			continue
+		}
+		var got [][]byte
+		for _, x := range arr {
+			b, err := stackitem.Serialize(x)
+			if err != nil {
+				b = []byte(err.Error())
+			}
+			got = append(got, b)
+			parts = append(parts, b)
+		}
+		parts = append(parts, []byte{0xff})
+		x := qs[i]
+		if x.natives {
+			// Management.getContractHashes against the plain dump of its id -> hash records (prefix 12)
+			if len(arr) == 2 {
+				var want, have []string
+				bc.SeekStorage(-1, []byte{12}, func(k, v []byte) bool {
+					if len(k) == 4 && int32(binary.BigEndian.Uint32(k)) >= 0 {
+						want = append(want, hex.EncodeToString(k)+":"+hex.EncodeToString(v))
+					}
+					return true
+				})
+				if hs, ok := arr[1].Value().([]stackitem.Item); ok {
+					for _, e := range hs {
+						if f, ok := e.Value().([]stackitem.Item); ok && len(f) == 2 {
+							kb, _ := f[0].TryBytes()
+							vb, _ := f[1].TryBytes()
+							have = append(have, hex.EncodeToString(kb)+":"+hex.EncodeToString(vb))
+						}
+					}
+				}
+				if strings.Join(want, ",") != strings.Join(have, ",") {
+					bad("getContractHashes iterator (values kept across Next) differs from the Seek dump: have %v, want %v", have, want)
+				}
+			}
+			continue
+		}
+		key := [2]int{x.cq.ID, x.seed}
+		pairs, ok := dumps[key]
+		if !ok {
+			bc.SeekStorage(int32(x.cq.ID), []byte{byte(x.seed)}, func(k, v []byte) bool {
+				pairs = append(pairs, [2][]byte{append([]byte{byte(x.seed)}, k...), bytes.Clone(v)})
+				return true
+			})
+			dumps[key] = pairs
+		}
+		want, err := c01IterExpected(pairs, x.opts)
+		if err != nil {
+			bad("iterator query contract %d prefix %d opts %d: dump not decodable: %v", x.cq.A, x.seed, x.opts, err)
+			continue
+		}
+		same := len(want) == len(got)
+		for j := 0; same && j < len(want); j++ {
+			same = bytes.Equal(want[j], got[j])
+		}
+		if !same {
+			bad("Find iterator (values kept across Next) differs from the Seek dump: contract %d prefix %d opts %d: %d items vs %d", x.cq.A, x.seed, x.opts, len(got), len(want))
+		}
+	}
+	o.QIter = c01Hash(parts...)
 }
 
 // c01DeployerOf: the universe account whose storage contract has the given hash (-1 = none).
@@ -1117,6 +1405,20 @@ func c01RandomOp(g *c05Gen, deployed map[int]bool) c05Op {
 		}
 		return pick(r, l)
 	}
+	if r.chance(7) { // iterator values held across Next (see c01Generate); now and then options Find refuses
+		opts := pick(r, c01FindOpts)
+		seed := r.intn(6)
+		if seed >= 4 || r.chance(10) {
+			opts = pick(r, c01FindOptsDeser) // on plain values: DeserializeValues faults, the same on every node
+		}
+		if r.chance(5) {
+			opts = pick(r, []int{5, 9, 48, 64, 133})
+		}
+		return c05Op{T: "citer", F: a, To: anyDeployed(), N: seed, W: r.intn(6), K: opts, A: int64(pick(r, []int{0, 0, 0, 1, 1, 2}))}
+	}
+	if r.chance(3) {
+		return c05Op{T: "cfills", F: a, To: anyDeployed(), N: 4 + r.intn(2), A: int64(1 + r.intn(20))}
+	}
 	switch x := r.intn(100); {
 	case x < 40:
 		return g.randomOp()
@@ -1272,6 +1574,36 @@ func c01Generate(r *rng, c *c05Chain, run *c05Runner, nblocks int) ([]c05Op, err
 					later = append(later, nil)
 				}
 				later = append(later, []c05Op{{T: "cput", F: pick(r, c05Signers), To: d, N: r.intn(4), K: r.intn(6), A: 9}})
+			case x >= 50 && x < 66 && (deployed[13] || deployed[14]):
+				// iterators whose values are held across Next: items written now, read 2-4 blocks later (flushed to
+				// disk / re-read after a restart on some replicas by then) with every class of Find options, the
+				// same read twice in one execution, and the iterators of getAllCandidates / getContractHashes
+				d := 13
+				if !deployed[13] || (deployed[14] && r.chance(50)) {
+					d = 14
+				}
+				s1, s2 := r.intn(4), 4+r.intn(2)
+				if err := emit(c05Op{T: "cfill", F: pick(r, c05Signers), To: d, N: s1, A: int64(3 + r.intn(20))},
+					c05Op{T: "cfills", F: pick(r, c05Signers), To: d, N: s2, A: int64(3 + r.intn(12))}); err != nil {
+					return g.ops, err
+				}
+				for i := 0; i < 1+r.intn(3); i++ {
+					later = append(later, nil)
+				}
+				var reads []c05Op
+				for i := 0; i < 3; i++ {
+					reads = append(reads, c05Op{T: "citer", F: pick(r, c05Signers), To: d, N: s1, K: pick(r, c01FindOpts)})
+				}
+				all := append(append([]int{}, c01FindOpts...), c01FindOptsDeser...)
+				for i := 0; i < 3; i++ {
+					reads = append(reads, c05Op{T: "citer", F: pick(r, c05Signers), To: d, N: s2, K: pick(r, all)})
+				}
+				reads = append(reads, c05Op{T: "citer", F: pick(r, c05Signers), To: d, N: s2, W: s1, K: pick(r, all), A: 1},
+					c05Op{T: "citer", F: pick(r, c05Signers), To: d, A: 2})
+				later = append(later, reads)
+				later = append(later, []c05Op{{T: "citer", F: pick(r, c05Signers), To: d, N: s1, W: s2, K: pick(r, []int{2, 3, 4, 130, 132}), A: 1},
+					{T: "cdel", F: pick(r, c05Signers), To: d, N: s1, K: r.intn(3)},
+					{T: "citer", F: pick(r, c05Signers), To: d, N: s1, K: pick(r, []int{2, 4, 132})}})
 			case x >= 30 && x < 40:
 				// designations of several roles across blocks (each effective from the next block; a second designation of
 				// the same role in one block faults); answered at historic heights by every replica afterwards
@@ -1569,7 +1901,7 @@ func runC01(args []string) error {
 	co := newCaseOut(cf.out, "Harness.C01", "Z",
 		"random block histories on a source node (C05 token/governance mix with candidates voted into the committee, Policy block/unblock and fee changes, "+
 			"designations of several roles across blocks (answered at historic heights), deploy/update/whitelist/destroy/redeploy lives of storage contracts, "+
-			"NotaryAssisted transactions, storage-heavy and faulting invocations), replayed on replicas differing in "+
+			"NotaryAssisted transactions, iterators whose values are kept across Next, storage-heavy and faulting invocations), replayed on replicas differing in "+
 			"backend (memory/LevelDB/BoltDB), flush points, KeepOnlyLatestState, RemoveUntraceableBlocks+GC, SkipBlockVerification, VerifyTransactions, mempool junk "+
 			"and restart heights (one replica per restart height on chains up to 40 blocks); one case = one history, compared at every height on every replica; "+
 			"non-trivial = the committee changed and a Policy block/unblock succeeded; distinct by Coq term")
